@@ -2,6 +2,7 @@ package p11
 
 import (
 	"fmt"
+	"os"
 	"math/big"
 
 	"verifharness/core"
@@ -221,6 +222,15 @@ func genDER(g *core.Gen) {
 }
 
 func (P) Generate(g *core.Gen) {
-	genDER(g)
-	genMore(g)
+	only := os.Getenv("C11_ONLY") // debugging aid: run a single generator
+	run := func(name string, f func(*core.Gen)) {
+		if only == "" || only == name {
+			f(g)
+		}
+	}
+	run("der", genDER)
+	run("pub", genPub)
+	run("ssig", genSchnorrSigParse)
+	run("signverify", genSignVerify)
+	run("musig", genMusig)
 }
